@@ -43,10 +43,22 @@ CHECKS = {
  "C12": ("exploration", "runtime monitoring: command histories against a reference cassette deck; edge log parsed in concatenated playing time",
          "Scripted/random histories over {play, stop, rewind, advance} at mid-pilot/sync/byte/bit/pause/after-end positions incl. repeated commands, at Tap level and through Emulator::{play,stop,rewind}_tape with EAR sampled by emulated IN; frozen level while stopped, blocks each once in order, clean pilot after rewind/end.",
          "Uses the rustzx_core::verif re-export; at emulator level end-of-tape is inferred from silence.", "DESIGN.md §3 C12"),
+ "C16": ("exploration", "runtime monitoring: differential twin executions, digests compared at equal emulated instants (frame numbers from the driving / frame-clock hook)",
+         "Scenarios (ROM boot, random programs, repository snapshots, tape loading real-time and fast) with key events at frame boundaries under the reference driving and under repetition, FrameCount(n) partitions, Max mode with scripted stopwatch readings, breakpoint stop/resume, sound off, AY mixing off, drain every 3rd frame / never, file/gzip/short-read assets; CPU+RAM+paging+border and both frame buffers compared at every event frame and at the end, audio between equal drain policies.",
+         "Digest = FNV-1a 64 over registers, all RAM pages (hook), paging, border colour and both frame buffers.", "DESIGN.md §3 C16"),
  "C17": ("exploration", "runtime monitoring: history + executable held-controls model, ports read by single-stepped IN",
          "Random event histories over every control of every input source; after every event all input ports are read through emulated IN instructions and compared with a model written from the statement. Held on the histories observed (10^5 events quick, 10^7 thorough).",
          "Trusts the keyboard matrix / Sinclair / compound tables typed into the harness from the statement; single-stepping uses the public DebugInterface; known finding sinclair2-down-maps-to-N2 is matched only by its exact signature.",
          "DESIGN.md §3 C17"),
+ "C18": ("exploration", "runtime monitoring: signal monitors (pitch by spectral/zero-crossing estimate, envelope staircase decoding, noise run-length quantisation, RMS/DC ladders, L/R energy) over AymPrecise output + port read-back model",
+         "Tone pitch for sampled (thorough: all 4096) periods x 3 channels, all 16 envelope shapes x several periods incl. restart rules, all 31 noise periods, volume ladder, 64 mixer masks, 7 pan modes, boundedness of random register histories (AY/YM, DC filter on/off) at clocks 1.7734/2 MHz and rates 8-384 kHz; AY port read-back/register wrap on the machine.",
+         "Data-sheet shape table and DAC-level learning typed into the harness; TP 0/1 judged only for equivalence and boundedness (Nyquist of the model's internal clock).", "DESIGN.md §3 C18"),
+ "C19": ("exploration", "runtime monitoring: offline checker over the drained audio sample log against the recorded port-write log (frame-clock hook)",
+         "Single-stepped programs toggling port 0xFE every 18..80000 T on both machines at rates 8000-384000 Hz, volumes 0-200, beeper/AY on/off: exact floor(rate/50) samples per frame, each sample equal to a level in force within +-1 sample +-12 T (levels learnt by calibration, speaker > MIC > 0), bounds, queue < 2 frames under always/never/random/K-undrained drain policies.",
+         "Bound = calibrated beeper maximum + (volume/100)*4.0 (statement says only 'implied by the volume setting').", "DESIGN.md §3 C19"),
+ "C20": ("exploration", "runtime monitoring: recording AymBackend log vs the statement's schedule; bit-exact chunking differential on the real chip; independent LH5 writer/parser/transposition",
+         "Random register logs (0-300 frames, R13=0xFF frequent), player frequencies and rates, 8 partition kinds of the output (all-1, odd stereo lengths, primes, random, one buffer) in mono/stereo and all sample types; synthetic VTX files from an own LH5 encoder and the four repository files decoded independently.",
+         "Degenerate parameters (player_frequency 0, rate < player_frequency) outside the judged domain.", "DESIGN.md §3 C20"),
 }
 
 ALL = ["C%02d" % i for i in range(1, 21)]
